@@ -13,6 +13,9 @@ use oxidd_core::{
 
 mod set_var_order;
 pub use set_var_order::{set_var_order, set_var_order_seq};
+#[cfg(oxidd_verif)]
+#[allow(dead_code)]
+mod verif_sync;
 
 /// Swap the level given by `upper_no` with the level directly below.
 ///
@@ -78,6 +81,8 @@ unsafe fn level_swap<M: Manager>(
     debug_assert!(lower_no < manager.num_levels());
     debug_assert!(upper_no_pre < manager.num_levels());
     debug_assert!(lower_no_pre < manager.num_levels());
+    #[cfg(oxidd_verif)]
+    oxidd_core::verif::yield_point(oxidd_core::verif::site::LEVEL_SWAP);
 
     // Note that the `Manager::level_unchecked()` may or may not acquire a lock.
     let mut upper = unsafe { manager.level_unchecked(upper_no) };
@@ -227,6 +232,8 @@ unsafe fn level_swap<M: Manager>(
     }
 
     abort_on_panic.defuse();
+    #[cfg(oxidd_verif)]
+    oxidd_core::verif::yield_point(oxidd_core::verif::site::LEVEL_SWAP_DONE);
 }
 
 /// Write the level number `level` to all nodes referenced from the `level`-th
